@@ -1,6 +1,6 @@
 """C09 – opaque tags stay opaque: nowiki/pre/math/source/syntaxhighlight/timeline bodies are never interpreted.
 
-Space: 6 tags x 11 embedding contexts x every body in SIGMA_B^<=2 (quick) / ^<=3 (thorough) that does not contain the tag's own
+Space: 6 tags x 14 embedding contexts x every body in SIGMA_B^<=2 (quick) / ^<=3 (thorough) that does not contain the tag's own
 closing tag.  Oracles: (1) the text the tag contributes to the tree, read between two sentinels, is exactly the body
 (character entities decoded for nowiki/pre only); (2) the tree has exactly the node structure it has when the body is a plain
 word – nothing inside the body created a node; (3) Uniquifier.replace_uniq(replace_tags(s)) == s.
@@ -29,10 +29,16 @@ CONTEXTS = [
     # arguments and branches of parser functions (the function works on the surrounding text, never on the protected region)
     ("if-branch", "{{#if:x|%s}}", {}),
     ("switch-branch", "{{#switch:k|k=%s}}", {}),
+    # directly behind extension tags that produce no node of their own (not one character in between)
+    ("after-ignored-tag", "%s", {}),
+    ("after-ignored-tags", "* %s\n", {}),
+    ("styled-template-arg", "{{M|%s}}", {"M": '<templatestyles src="x"/>{{{1}}}'}),
     ("lc-arg", "{{lc:%s}}", {}),
     ("uc-arg", "{{uc:%s}}", {}),
 ]
 SENTINEL_CASE = {"lc-arg": str.lower, "uc-arg": str.upper}
+# what stands between the first sentinel and the region (nothing, normally)
+GLUE = {"after-ignored-tag": '<templatestyles src="x"/>', "after-ignored-tags": '<templatestyles src="x"/><categorytree>c</categorytree>'}
 
 
 def decode_entities(s):
@@ -72,7 +78,7 @@ def shape(node, out):
 
 class C09(InputProp):
     id = "C09"
-    rule = ("6 tags x 11 contexts x every body over a 50-lexeme markup alphabet up to the length bound (bodies containing the tag's own "
+    rule = ("6 tags x 14 contexts x every body over a 50-lexeme markup alphabet up to the length bound (bodies containing the tag's own "
             "closing tag excluded); distinct = distinct (tag, context, tree shape) outcomes")
     assumptions = ("bodies are sequences of the 50 lexemes of SIGMA_B", "the reserved marker byte 0x7f does not occur in bodies (excluded by the statement)")
     chunk = 1500
@@ -95,7 +101,7 @@ class C09(InputProp):
     def page(self, tag, ctxname, body):
         _, tmpl, pages = self.ctx[ctxname]
         # a second instance of the tag follows, so that a match running past the closing tag is visible
-        inner = "%s<%s>%s</%s>%s<%s>w</%s>" % (S0, tag, body, tag, S1, tag, tag)
+        inner = "%s%s<%s>%s</%s>%s<%s>w</%s>" % (S0, GLUE.get(ctxname, ""), tag, body, tag, S1, tag, tag)
         if ctxname == "template-body":
             return "{{B}}", {"B": inner, "T": "tt"}
         pg = dict(pages)
